@@ -1,16 +1,535 @@
 /-
   C17/Theorems — the ledger for property C17 (every theorem here is audited).
+
+  Layout: (1) the cloner builds an isomorphic, disjoint image (clone_iso, clone_eval_root,
+  clone_disjoint, copy_leaves_original, copy_reach_fresh, original_reach_old); (2) two general
+  theorems about rooted heaps: isolation (frame) and observational_equiv (simulation);
+  (3) their instances for Copy() and closure under repeated copying (copy_sim, copy_isolated,
+  copy_chain, sep_preserved_by_copy); (4) kernel-checked witnesses of the deviation regions.
 -/
-import OttoVerif.C17.Spec
+import OttoVerif.C17.Lemmas
 namespace OttoVerif.C17.Thm
 open OttoVerif.C17
 
-/-! ### kernel-checked witnesses of the deviation regions (each replayed on the real code by the harness) -/
+/-- true of every runtime at rest: the global object's prototype is `rt.global.ObjectPrototype`
+    (global.go:53; ES5 has no way to change an object's prototype) -/
+def GlobalProtoOK (h : Heap) (roots : Roots) : Prop :=
+  ∃ go p, look roots.globalObject h = some (.obj go) ∧ go.proto = some p ∧ roots.globals[objectPrototypeIx]? = some p
+
+def objRoots (roots : Roots) : List Addr := roots.globalObject :: roots.globals
+
+/-- everything reachable from the object roots was memoised (= cloned) -/
+theorem reach_memo {r : Nat} {h : Heap} {base : Nat} {roots : Roots} {c : Cloned}
+    (F : CloneFacts r h base roots c) : ∀ a, Reach h (objRoots roots) a → look a c.memo ≠ none := by
+  intro a ha
+  induction ha with
+  | root hr => exact F.rootsIn _ hr
+  | @step a' b n _ hl hb ih =>
+    cases hm : look a' c.memo with
+    | none => exact absurd hm ih
+    | some y =>
+      obtain ⟨n', hn', _, hr⟩ := F.image a' y hm
+      rw [hl] at hn'; cases hn'
+      exact hr b hb
+
+theorem setProto_same (r : Nat) (φ : Nat → Nat) (go : Obj) (p : Nat) (hp : go.proto = some p) :
+    setProto (some (φ p)) ((Node.obj go).map r φ) = (Node.obj go).map r φ := by
+  simp [setProto, Node.map, hp, optMap]
+
+/-- **C17.clone_iso** — `runtime.clone` builds an isomorphic image of everything reachable from the
+    object roots: φ (the memo table) is injective there, sends every node to a fresh address
+    (`≥ base`), the node stored at `φ a` is the source node with every reference sent through φ
+    (same class, extensibility, property order, attributes, payload, bindings and flags, parameter
+    map) and the runtime back-pointer set to the new runtime; the new roots are the φ-images of the
+    old ones and the new global stash is a fresh objectStash over the new global object. -/
+theorem clone_iso {r : Nat} {h : Heap} {base fuel : Nat} {roots : Roots} {c : Cloned}
+    (hc : cloneRuntime r h base fuel roots = .ok c) (hg : GlobalProtoOK h roots) :
+    InjOn c.phi (Reach h (objRoots roots)) ∧
+    ImageOn r c.phi (Reach h (objRoots roots)) h c.out ∧
+    (∀ a, Reach h (objRoots roots) a → base ≤ c.phi a) ∧
+    c.roots.globalObject = c.phi roots.globalObject ∧
+    c.roots.globals = roots.globals.map c.phi ∧
+    look c.roots.globalStash c.out = some (.ost r none c.roots.globalObject) := by
+  have F := cloneRuntime_facts hc
+  have hmem := reach_memo F
+  have hphi : ∀ a y, look a c.memo = some y → c.phi a = y := fun a y h => by simp [Cloned.phi, h]
+  refine ⟨?_, ?_, ?_, F.gObj, F.globals, F.gStash.1⟩
+  · intro a b ha hb hab
+    cases hma : look a c.memo with
+    | none => exact absurd hma (hmem a ha)
+    | some ya =>
+      cases hmb : look b c.memo with
+      | none => exact absurd hmb (hmem b hb)
+      | some yb =>
+        rw [hphi a ya hma, hphi b yb hmb] at hab
+        subst hab
+        exact F.inj a b ya hma hmb
+  · intro a ha n hn
+    cases hma : look a c.memo with
+    | none => exact absurd hma (hmem a ha)
+    | some y =>
+      obtain ⟨n', hn', ho, _⟩ := F.image a y hma
+      rw [hn] at hn'; cases hn'
+      rw [hphi a y hma, ho]
+      by_cases hag : a = roots.globalObject
+      · obtain ⟨go, p, hgo, hp, hix⟩ := hg
+        subst hag
+        rw [hgo] at hn; cases hn
+        simp only [if_true]
+        have : (List.map c.phi roots.globals)[objectPrototypeIx]? = some (c.phi p) := by
+          simp [List.getElem?_map, hix]
+        rw [this, setProto_same r c.phi go p hp]
+      · simp [hag]
+  · intro a ha
+    cases hma : look a c.memo with
+    | none => exact absurd hma (hmem a ha)
+    | some y => rw [hphi a y hma]; exact (F.range a y hma).1
+
+theorem findProp_propsMap (f : Nat → Nat) (name : String) (ps : List PropE) :
+    findProp name (propsMap f ps) = (findProp name ps).map (fun p => { p with val := p.val.map f }) := by
+  induction ps with
+  | nil => rfl
+  | cons p ps ih =>
+    simp only [propsMap, findProp]
+    by_cases hn : p.name = name
+    · simp [hn]
+    · simp [hn, ih]
+
+/-- **C17.clone_eval_root** — outside the region `eval_rebound` (the global object's own `eval` is
+    the data property holding `rt.eval`) the copy's `rt.eval` is the image of the original's. -/
+theorem clone_eval_root {r : Nat} {h : Heap} {base fuel : Nat} {roots : Roots} {c : Cloned}
+    (hc : cloneRuntime r h base fuel roots = .ok c)
+    (go : Obj) (p : PropE) (hgo : look roots.globalObject h = some (.obj go))
+    (hp : findProp "eval" go.props = some p) (hv : p.val = .data (.ref roots.eval)) :
+    c.roots.eval = c.phi roots.eval := by
+  have F := cloneRuntime_facts hc
+  obtain ⟨go', nm, md, hgo', he⟩ := F.evalP
+  rw [hgo] at hgo'; cases hgo'
+  rw [findProp_propsMap, hp] at he
+  simp [hv, PVal.map, Val.map] at he
+  exact he.2.2.symm
+
+/-- **C17.clone_disjoint** — every node `Copy()` allocates lies at a fresh address and every
+    reference stored in it is a fresh address: the clone holds NO pointer into the source heap.
+    What it does share with the source are exactly the things `Node` keeps as opaque tokens:
+    strings/numbers, `*nodeFunctionLiteral`, native Go function values, `*objectClass`,
+    `*regexp.Regexp`, dates and error records – the kinds declared immutable. -/
+theorem clone_disjoint {r : Nat} {h : Heap} {base fuel : Nat} {roots : Roots} {c : Cloned}
+    (hc : cloneRuntime r h base fuel roots = .ok c) : Separated base c.out :=
+  fun b n hb => (cloneRuntime_facts hc).sep b n hb
+
+theorem look_append {α : Type} (a : Nat) (l1 l2 : List (Nat × α)) :
+    look a (l1 ++ l2) = match look a l1 with | some v => some v | none => look a l2 := by
+  induction l1 with
+  | nil => simp [look]
+  | cons kv rest ih =>
+    obtain ⟨k, v⟩ := kv
+    simp only [List.cons_append, look_cons]
+    by_cases hk : k = a
+    · simp [hk]
+    · simp [hk, ih]
+
+/-- a source heap occupying the addresses below `base`, closed under references -/
+structure SourceHeap (h : Heap) (base : Nat) (roots : Roots) : Prop where
+  below  : ∀ a n, look a h = some n → a < base
+  closed : ∀ a n, look a h = some n → ∀ c ∈ n.refs, c < base
+  roots  : ∀ a ∈ rootList roots, a < base
+
+/-- **C17.copy_leaves_original** — `Copy()` leaves the original as it was: in the joint Go heap
+    every address of the source heap still holds what it held. -/
+theorem copy_leaves_original {r : Nat} {h : Heap} {base fuel : Nat} {roots : Roots} {c : Cloned}
+    (hc : cloneRuntime r h base fuel roots = .ok c) (a : Nat) (ha : a < base) :
+    look a (c.out ++ h) = look a h := by
+  rw [look_append]
+  cases ho : look a c.out with
+  | none => rfl
+  | some n =>
+    have := (clone_disjoint hc a n (look_mem ho)).1
+    omega
+
+/-- the copy's roots are fresh addresses -/
+theorem clone_roots_fresh {r : Nat} {h : Heap} {base fuel : Nat} {roots : Roots} {c : Cloned}
+    (hc : cloneRuntime r h base fuel roots = .ok c) : ∀ a ∈ rootList c.roots, base ≤ a := by
+  have F := cloneRuntime_facts hc
+  have hphi : ∀ a, look a c.memo ≠ none → base ≤ c.phi a := by
+    intro a ha
+    cases hm : look a c.memo with
+    | none => exact absurd hm ha
+    | some y => simp [Cloned.phi, hm]; exact (F.range a y hm).1
+  intro a ha
+  simp only [rootList, List.mem_cons, List.mem_append, List.mem_nil_iff, or_false] at ha
+  rcases ha with rfl | ha | rfl | rfl
+  · rw [F.gObj]; exact hphi _ (F.rootsIn _ (by simp))
+  · rw [F.globals] at ha
+    obtain ⟨a0, ha0, rfl⟩ := List.mem_map.mp ha
+    exact hphi _ (F.rootsIn _ (by simp [ha0]))
+  · -- eval: a reference stored in the cloned global object
+    obtain ⟨go, nm, md, hgo, he⟩ := F.evalP
+    cases hm : look roots.globalObject c.memo with
+    | none => exact absurd hm (F.rootsIn _ (by simp))
+    | some g' =>
+      obtain ⟨n, hn, ho, _⟩ := F.image _ g' hm
+      rw [hgo] at hn; cases hn
+      simp only [if_true] at ho
+      have hsep := (F.sep g' _ (look_mem ho)).2
+      apply hsep
+      have hin : c.roots.eval ∈ propsRefs (propsMap c.phi go.props) := by
+        generalize propsMap c.phi go.props = ps at he
+        induction ps with
+        | nil => simp [findProp] at he
+        | cons p ps ih =>
+          simp only [findProp] at he
+          by_cases hn : p.name = "eval"
+          · simp [hn] at he; subst he; simp [propsRefs, PVal.refs, Val.refs]
+          · simp [hn] at he; simp [propsRefs, ih he]
+      simp [setProto, Node.map, Node.refs, hin]
+  · exact F.gStash.2
+
+/-- **C17.copy_unreachable_from_original / original_unreachable_from_copy** — in the joint heap
+    nothing the copy can reach is a node of the source heap, and nothing the original can reach is
+    a node `Copy()` allocated. -/
+theorem copy_reach_fresh {r : Nat} {h : Heap} {base fuel : Nat} {roots : Roots} {c : Cloned}
+    (hc : cloneRuntime r h base fuel roots = .ok c) (hs : SourceHeap h base roots) :
+    ∀ a, Reach (c.out ++ h) (rootList c.roots) a → base ≤ a := by
+  intro a ha
+  induction ha with
+  | root hr => exact clone_roots_fresh hc _ hr
+  | @step a' b n _ hl hb ih =>
+    rw [look_append] at hl
+    cases ho : look a' c.out with
+    | some n' =>
+      rw [ho] at hl; cases hl
+      exact (clone_disjoint hc a' _ (look_mem ho)).2 b hb
+    | none =>
+      rw [ho] at hl
+      have := hs.below a' n hl
+      omega
+
+theorem original_reach_old {r : Nat} {h : Heap} {base fuel : Nat} {roots : Roots} {c : Cloned}
+    (hc : cloneRuntime r h base fuel roots = .ok c) (hs : SourceHeap h base roots) :
+    ∀ a, Reach (c.out ++ h) (rootList roots) a → a < base := by
+  intro a ha
+  induction ha with
+  | root hr => exact hs.roots _ hr
+  | @step a' b n _ hl hb ih =>
+    rw [copy_leaves_original hc a' ih] at hl
+    exact hs.closed a' n hl b hb
+
+/-! ### isolation: a frame theorem for the joint Go heap -/
+
+/-- one effect of a running script on the Go heap: node `addr` is (over)written – allocation is a
+    write at an address that held nothing -/
+structure Write where
+  addr : Nat
+  node : Node
+
+def applyW (W : Heap) (w : Write) : Heap := (w.addr, w.node) :: W
+def applyWs (W : Heap) (ws : List Write) : Heap := ws.foldl applyW W
+
+/-- two runtimes living in one heap `W` with nothing in common: `PA`/`PB` say which addresses belong
+    to which side (including the addresses each side will allocate later) -/
+structure SepInv (W : Heap) (PA PB : Nat → Prop) (rsA rsB : List Nat) : Prop where
+  disj    : ∀ a, PA a → PB a → False
+  rootsA  : ∀ a ∈ rsA, PA a
+  rootsB  : ∀ a ∈ rsB, PB a
+  closedA : ∀ a n, look a W = some n → PA a → ∀ c ∈ n.refs, PA c
+  closedB : ∀ a n, look a W = some n → PB a → ∀ c ∈ n.refs, PB c
+
+theorem SepInv.symm {W : Heap} {PA PB : Nat → Prop} {rsA rsB : List Nat} (s : SepInv W PA PB rsA rsB) :
+    SepInv W PB PA rsB rsA := ⟨fun a hb ha => s.disj a ha hb, s.rootsB, s.rootsA, s.closedB, s.closedA⟩
+
+/-- a write performed by a script of the side owning `P`: it hits one of that side's nodes (or a
+    node it allocates) and stores only that side's references -/
+def OwnedBy (P : Nat → Prop) (w : Write) : Prop := P w.addr ∧ ∀ c ∈ w.node.refs, P c
+
+theorem reach_in {W : Heap} {P : Nat → Prop} {rs : List Nat} (hr : ∀ a ∈ rs, P a)
+    (hc : ∀ a n, look a W = some n → P a → ∀ c ∈ n.refs, P c) : ∀ a, Reach W rs a → P a := by
+  intro a ha
+  induction ha with
+  | root h => exact hr _ h
+  | @step a' b n _ hl hb ih => exact hc a' n hl ih b hb
+
+theorem reach_congr {W W' : Heap} {P : Nat → Prop} {rs : List Nat} (hr : ∀ a ∈ rs, P a)
+    (hc : ∀ a n, look a W = some n → P a → ∀ c ∈ n.refs, P c) (heq : ∀ a, P a → look a W' = look a W) :
+    ∀ a, Reach W rs a → Reach W' rs a := by
+  intro a ha
+  have hin := reach_in hr hc
+  induction ha with
+  | root h => exact .root h
+  | @step a' b n hra hl hb ih => exact .step ih (by rw [heq a' (hin a' hra)]; exact hl) hb
+
+theorem isolation_step {W : Heap} {PA PB : Nat → Prop} {rsA rsB : List Nat} (s : SepInv W PA PB rsA rsB)
+    (w : Write) (hw : OwnedBy PA w) :
+    SepInv (applyW W w) PA PB rsA rsB ∧ ∀ a, PB a → look a (applyW W w) = look a W := by
+  have hlook : ∀ a, PB a → look a (applyW W w) = look a W := by
+    intro a hb
+    simp only [applyW, look_cons]
+    have : w.addr ≠ a := fun h => s.disj a (h ▸ hw.1) hb
+    rw [if_neg this]
+  refine ⟨⟨s.disj, s.rootsA, s.rootsB, ?_, ?_⟩, hlook⟩
+  · intro a n hl ha
+    simp only [applyW, look_cons] at hl
+    by_cases hwa : w.addr = a
+    · rw [if_pos hwa] at hl; cases hl; exact hw.2
+    · rw [if_neg hwa] at hl; exact s.closedA a n hl ha
+  · intro a n hl hb
+    rw [hlook a hb] at hl
+    exact s.closedB a n hl hb
+
+/-- **C17.isolation** — whatever sequence of writes a script of runtime A performs (assignments,
+    deletions, defineProperty, freezing, edits of prototype objects and built-ins, closure state
+    changes: each is a write to a node A owns storing references A owns), every node of runtime B
+    holds afterwards exactly what it held before, B reaches exactly the same nodes, and the two
+    stay separated (so the statement applies again to whatever runs next, on either side). -/
+theorem isolation {PA PB : Nat → Prop} {rsA rsB : List Nat} (ws : List Write) (hw : ∀ w ∈ ws, OwnedBy PA w) :
+    ∀ (W : Heap), SepInv W PA PB rsA rsB →
+    SepInv (applyWs W ws) PA PB rsA rsB ∧
+    (∀ a, PB a → look a (applyWs W ws) = look a W) ∧
+    (∀ a, Reach (applyWs W ws) rsB a ↔ Reach W rsB a) := by
+  induction ws with
+  | nil => intro W s; exact ⟨s, fun _ _ => rfl, fun _ => Iff.rfl⟩
+  | cons w ws ih =>
+    intro W s
+    obtain ⟨s1, h1⟩ := isolation_step s w (hw w (by simp))
+    obtain ⟨s2, h2, h3⟩ := ih (fun w' hw' => hw w' (by simp [hw'])) (applyW W w) s1
+    refine ⟨s2, fun a hb => by rw [show applyWs W (w :: ws) = applyWs (applyW W w) ws from rfl, h2 a hb, h1 a hb], ?_⟩
+    intro a
+    rw [show applyWs W (w :: ws) = applyWs (applyW W w) ws from rfl, h3 a]
+    exact ⟨reach_congr s1.rootsB s1.closedB (fun a hb => (h1 a hb).symm) a,
+           reach_congr s.rootsB s.closedB h1 a⟩
+
+/-- **C17.isolation_both** — and in the other direction -/
+theorem isolation_rev {PA PB : Nat → Prop} {rsA rsB : List Nat} (ws : List Write) (hw : ∀ w ∈ ws, OwnedBy PB w)
+    (W : Heap) (s : SepInv W PA PB rsA rsB) :
+    SepInv (applyWs W ws) PA PB rsA rsB ∧
+    (∀ a, PA a → look a (applyWs W ws) = look a W) ∧
+    (∀ a, Reach (applyWs W ws) rsA a ↔ Reach W rsA a) := by
+  obtain ⟨s', h1, h2⟩ := isolation ws hw W s.symm
+  exact ⟨s'.symm, h1, h2⟩
+
+/-! ### observational equivalence: what reads can see -/
+
+/-- follow a path of reference indices from a node -/
+def resolve (W : Heap) : Nat → List Nat → Option Nat
+  | a, [] => some a
+  | a, i :: p => match look a W with
+    | none => none
+    | some n => match n.refs[i]? with
+      | none => none
+      | some b => resolve W b p
+
+/-- everything a script can read off a node without following a pointer: class, extensibility,
+    property names in order with attributes and primitive values, payload kind and by-value data,
+    binding names, flags and primitive values, parameter map (addresses erased) -/
+def shape (n : Node) : Node := n.map 0 (fun _ => 0)
+
+theorem shape_map (r : Nat) (φ : Nat → Nat) (n : Node) : shape (n.map r φ) = shape n := by
+  simp only [shape, Node.map_map]; rfl
+
+/-- `W'` simulates `W` on `dom` through the renaming φ -/
+structure Sim (r : Nat) (φ : Nat → Nat) (dom : Nat → Prop) (W W' : Heap) : Prop where
+  closed : ∀ a n, dom a → look a W = some n → ∀ c ∈ n.refs, dom c
+  total  : ∀ a, dom a → look a W ≠ none
+  image  : ImageOn r φ dom W W'
+
+/-- **C17.observational_equiv** — under a simulation every pointer chase from corresponding nodes
+    ends in corresponding nodes (or fails on both sides), and corresponding nodes look the same. -/
+theorem observational_equiv {r : Nat} {φ : Nat → Nat} {dom : Nat → Prop} {W W' : Heap} (s : Sim r φ dom W W') :
+    ∀ (p : List Nat) (a : Nat), dom a →
+      resolve W' (φ a) p = (resolve W a p).map φ ∧
+      (∀ b, resolve W a p = some b → dom b ∧ (look (φ b) W').map shape = (look b W).map shape) := by
+  intro p
+  induction p with
+  | nil =>
+    intro a ha
+    refine ⟨rfl, ?_⟩
+    intro b hb
+    simp only [resolve] at hb; cases hb
+    refine ⟨ha, ?_⟩
+    cases hl : look a W with
+    | none => exact absurd hl (s.total a ha)
+    | some n => rw [s.image a ha n hl]; simp [shape_map]
+  | cons i p ih =>
+    intro a ha
+    cases hl : look a W with
+    | none => exact absurd hl (s.total a ha)
+    | some n =>
+      have hl' := s.image a ha n hl
+      simp only [resolve, hl, hl', Node.refs_map]
+      cases hi : n.refs[i]? with
+      | none => simp [hi]
+      | some b =>
+        have hb : dom b := s.closed a n ha hl b (List.mem_of_getElem? hi)
+        simp only [List.getElem?_map, hi, Option.map]
+        exact ih b hb
+
+/-- identity comparisons (`===` on objects) agree as well -/
+theorem observational_identity {r : Nat} {φ : Nat → Nat} {dom : Nat → Prop} {W W' : Heap} (s : Sim r φ dom W W')
+    (hinj : InjOn φ dom) (a : Nat) (ha : dom a) (p q : List Nat) (x y : Nat)
+    (hx : resolve W a p = some x) (hy : resolve W a q = some y) :
+    (resolve W' (φ a) p = resolve W' (φ a) q) ↔ x = y := by
+  obtain ⟨e1, d1⟩ := observational_equiv s p a ha
+  obtain ⟨e2, d2⟩ := observational_equiv s q a ha
+  rw [e1, e2, hx, hy]
+  simp only [Option.map, Option.some.injEq]
+  exact ⟨fun h => hinj x y (d1 x hx).1 (d2 y hy).1 h, fun h => by rw [h]⟩
+
+
+/-! ### the two general theorems applied to `Copy()`, and closure under repeated copying -/
+
+/-- **C17.copy_sim** — after `Copy()` the joint heap simulates the source heap on everything
+    reachable from the roots: `observational_equiv` and `observational_identity` apply to the copy. -/
+theorem copy_sim {r : Nat} {h : Heap} {base fuel : Nat} {roots : Roots} {c : Cloned}
+    (hc : cloneRuntime r h base fuel roots = .ok c) (hg : GlobalProtoOK h roots) :
+    Sim r c.phi (Reach h (objRoots roots)) h (c.out ++ h) ∧ InjOn c.phi (Reach h (objRoots roots)) := by
+  have F := cloneRuntime_facts hc
+  obtain ⟨hinj, himg, _⟩ := clone_iso hc hg
+  refine ⟨⟨fun a n ha hl c' hc' => .step ha hl hc', ?_, ?_⟩, hinj⟩
+  · intro a ha
+    cases hm : look a c.memo with
+    | none => exact absurd hm (reach_memo F a ha)
+    | some y => obtain ⟨n, hn, _⟩ := F.image a y hm; simp [hn]
+  · intro a ha n hl
+    rw [look_append, himg a ha n hl]
+
+/-- **C17.copy_isolated** — after `Copy()` original and copy are separated in the joint heap (the
+    copy owns the addresses `≥ base`, the original those `< base`): `isolation` / `isolation_rev`
+    apply to every script run on either. -/
+theorem copy_isolated {r : Nat} {h : Heap} {base fuel : Nat} {roots : Roots} {c : Cloned}
+    (hc : cloneRuntime r h base fuel roots = .ok c) (hs : SourceHeap h base roots) :
+    SepInv (c.out ++ h) (fun a => base ≤ a) (fun a => a < base) (rootList c.roots) (rootList roots) := by
+  refine ⟨fun a h1 h2 => by omega, clone_roots_fresh hc, hs.roots, ?_, ?_⟩
+  · intro a n hl ha
+    rw [look_append] at hl
+    cases ho : look a c.out with
+    | some n' => rw [ho] at hl; cases hl; exact (clone_disjoint hc a _ (look_mem ho)).2
+    | none => rw [ho] at hl; have := hs.below a n hl; omega
+  · intro a n hl ha
+    rw [copy_leaves_original hc a ha] at hl
+    exact hs.closed a n hl
+
+/-- **C17.copy_chain** — copies of copies: the joint heap after `Copy()` is again a source heap
+    (below the allocator's new position, closed under references) for the copy AND for the
+    original, so every theorem above applies to a copy of the copy and to a second copy of the
+    original. -/
+theorem copy_chain {r : Nat} {h : Heap} {base fuel : Nat} {roots : Roots} {c : Cloned}
+    (hc : cloneRuntime r h base fuel roots = .ok c) (hs : SourceHeap h base roots) :
+    SourceHeap (c.out ++ h) c.next c.roots ∧ SourceHeap (c.out ++ h) c.next roots := by
+  have F := cloneRuntime_facts hc
+  have hbn : base ≤ c.next := by
+    have := F.gStash
+    have h2 := F.outLt _ _ this.1
+    omega
+  have hbelow : ∀ a n, look a (c.out ++ h) = some n → a < c.next := by
+    intro a n hl
+    rw [look_append] at hl
+    cases ho : look a c.out with
+    | some n' => exact F.outLt a n' ho
+    | none => rw [ho] at hl; have := hs.below a n hl; omega
+  have hclosed : ∀ a n, look a (c.out ++ h) = some n → ∀ c' ∈ n.refs, c' < c.next := by
+    intro a n hl c' hc'
+    rw [look_append] at hl
+    cases ho : look a c.out with
+    | some n' => rw [ho] at hl; cases hl; exact F.refsLt a _ (look_mem ho) c' hc'
+    | none => rw [ho] at hl; have := hs.closed a n hl c' hc'; omega
+  refine ⟨⟨hbelow, hclosed, ?_⟩, ⟨hbelow, hclosed, fun a ha => by have := hs.roots a ha; omega⟩⟩
+  intro a ha
+  simp only [rootList, List.mem_cons, List.mem_append, List.mem_nil_iff, or_false] at ha
+  have hphi : ∀ a, look a c.memo ≠ none → c.phi a < c.next := by
+    intro a ha
+    cases hm : look a c.memo with
+    | none => exact absurd hm ha
+    | some y => simp [Cloned.phi, hm]; exact (F.range a y hm).2
+  rcases ha with rfl | ha | rfl | rfl
+  · rw [F.gObj]; exact hphi _ (F.rootsIn _ (by simp))
+  · rw [F.globals] at ha
+    obtain ⟨a0, ha0, rfl⟩ := List.mem_map.mp ha
+    exact hphi _ (F.rootsIn _ (by simp [ha0]))
+  · obtain ⟨go, nm, md, hgo, he⟩ := F.evalP
+    cases hm : look roots.globalObject c.memo with
+    | none => exact absurd hm (F.rootsIn _ (by simp))
+    | some g' =>
+      obtain ⟨n, hn, ho, _⟩ := F.image _ g' hm
+      rw [hgo] at hn; cases hn
+      simp only [if_true] at ho
+      apply F.refsLt g' _ (look_mem ho)
+      have hin : c.roots.eval ∈ propsRefs (propsMap c.phi go.props) := by
+        generalize propsMap c.phi go.props = ps at he
+        induction ps with
+        | nil => simp [findProp] at he
+        | cons p ps ih =>
+          simp only [findProp] at he
+          by_cases hn : p.name = "eval"
+          · simp [hn] at he; subst he; simp [propsRefs, PVal.refs, Val.refs]
+          · simp [hn] at he; simp [propsRefs, ih he]
+      simp [setProto, Node.map, Node.refs, hin]
+  · exact F.outLt _ _ F.gStash.1
+
+/-- **C17.sep_preserved_by_copy** — two separated runtimes stay separated when a third runtime is
+    made by `Copy()` of anything: the new nodes are nobody's (they belong to the new runtime). -/
+theorem sep_preserved_by_copy {W out : Heap} {PA PB : Nat → Prop} {rsA rsB : List Nat} {base2 : Nat}
+    (s : SepInv W PA PB rsA rsB) (hnew : ∀ y n, (y, n) ∈ out → base2 ≤ y)
+    (hold : ∀ a, PA a ∨ PB a → a < base2) : SepInv (out ++ W) PA PB rsA rsB := by
+  have hl : ∀ a, PA a ∨ PB a → look a (out ++ W) = look a W := by
+    intro a ha
+    rw [look_append]
+    cases ho : look a out with
+    | none => rfl
+    | some n => have := hnew a n (look_mem ho); have := hold a ha; omega
+  exact ⟨s.disj, s.rootsA, s.rootsB,
+    fun a n h1 ha => s.closedA a n (by rw [← hl a (.inl ha)]; exact h1) ha,
+    fun a n h1 hb => s.closedB a n (by rw [← hl a (.inr hb)]; exact h1) hb⟩
+
 
 def gobj (props : List PropE) : Node :=
   .obj { rt := 0, cls := "", klass := "object", ext := true, proto := none, props := props, payload := .other "nil" }
 def fnObj (id : String) : Node :=
   .obj { rt := 0, cls := "Function", klass := "object", ext := true, proto := none, props := [], payload := .native id }
+
+/-! ### totality, and the hypotheses as executable checks -/
+
+/-- **C17.clone_total** — fuel is not a restriction: given more fuel than the heap has nodes the
+    model of `runtime.clone` never runs out (it returns a copy or the Go panic). -/
+theorem clone_total (r : Nat) (h : Heap) (base fuel : Nat) (roots : Roots) (hf : h.length < fuel) :
+    (match cloneRuntime r h base fuel roots with | .fuel => false | _ => true) = true :=
+  cloneRuntime_nofuel r h base fuel roots hf
+
+theorem checkSource_sound {h : Heap} {base : Nat} {roots : Roots} (hc : checkSource h base roots = true) :
+    SourceHeap h base roots := by
+  simp only [checkSource, Bool.and_eq_true, List.all_eq_true, decide_eq_true_eq] at hc
+  obtain ⟨h1, h2⟩ := hc
+  refine ⟨fun a n hl => (h1 (a, n) (look_mem hl)).1, fun a n hl c' hc' => (h1 (a, n) (look_mem hl)).2 c' hc', ?_⟩
+  intro a ha
+  exact h2 a ha
+
+theorem checkGlobalProto_sound {h : Heap} {roots : Roots} (hc : checkGlobalProto h roots = true) :
+    GlobalProtoOK h roots := by
+  unfold checkGlobalProto at hc
+  split at hc
+  · rename_i go p h1 h2
+    exact ⟨go, p, h1, by simpa using hc, h2⟩
+  · cases hc
+
+/-- non-vacuity: a small runtime meeting every hypothesis, on which the cloner succeeds.
+    0 = global object {eval: @2} with prototype 1 = Object.prototype, 2 = eval, 3 = global stash,
+    4 = a closure over 5 = a function stash holding the closure itself and its arguments object 6. -/
+def hSmall : Heap :=
+  [(0, .obj { rt := 0, cls := "", klass := "object", ext := true, proto := some 1,
+              props := [⟨"eval", 0o101, .data (.ref 2)⟩, ⟨"f", 0o111, .data (.ref 4)⟩], payload := .other "nil" }),
+   (1, gobj [⟨"toString", 0o101, .data (.ref 2)⟩]), (2, fnObj "eval"), (3, .ost 0 none 0),
+   (4, .obj { rt := 0, cls := "Function", klass := "object", ext := true, proto := some 1, props := [], payload := .nodeFn "n0" (some 5) }),
+   (5, .fn 0 (some 3) [⟨"self", 4, .ref 4⟩, ⟨"arguments", 4, .ref 6⟩] (some 6) []),
+   (6, .obj { rt := 0, cls := "Arguments", klass := "arguments", ext := true, proto := some 1,
+              props := [⟨"callee", 0o101, .data (.ref 4)⟩], payload := .arguments ["x"] (some 5) })]
+def rSmall : Roots := { globalObject := 0, globals := List.replicate 18 1, eval := 2, globalStash := 3 }
+
+example : checkSource hSmall 7 rSmall = true := by decide
+example : checkGlobalProto hSmall rSmall = true := by decide
+example : (match cloneRuntime 1 hSmall 7 8 rSmall with
+    | .ok c => c.roots.globalObject == 7 && c.roots.eval == 9 && c.next == 15 && c.out.length == 8
+    | _ => false) = true := by decide
+
+/-! ### kernel-checked witnesses of the deviation regions (each replayed on the real code by the harness) -/
 
 /-- a minimal runtime: 0 = global object {eval: @1}, 1 = eval, 2 = global stash -/
 def hOk : Heap := [(0, gobj [⟨"eval", 0o101, .data (.ref 1)⟩]), (1, fnObj "eval"), (2, .ost 0 none 0)]
